@@ -445,7 +445,14 @@ end frame
 theorem resolve_connect (app : Registry) (adminNs : Ns) (mode : Str) (ro : Bool) (args : List J) :
     resolve (instrumentReg app adminNs mode ro) adminNs (.str "connect".toList) args =
       .ok (.fn (.fn adminNs "connect".toList) args) := by
-  simp [resolve, instrumentReg, registered, hashable, inDict, evStr]
+  generalize hc : "connect".toList = c
+  have hstar : (c == star) = false := by subst hc; decide
+  have hfn : (instrumentReg app adminNs mode ro).fn adminNs c = true := by
+    subst hc; simp [instrumentReg, registered]
+  have hns : (instrumentReg app adminNs mode ro).fnNs adminNs = true := by
+    simp [instrumentReg]
+  simp only [resolve, evStr, hashable, inDict, hstar, hfn, hns, Bool.not_true, Bool.not_false,
+    Bool.true_and, if_true, Bool.false_eq_true, if_false, Option.getD_some]
 
 theorem disconnect_connect {r r' : Rooms.St} {ns : Ns} {t : Eio} {sid : Sid}
     (fresh : ∀ e ∈ r, e.sid ≠ sid) (h : Rooms.connect r ns t sid = some r') :
